@@ -390,6 +390,123 @@ impl System for RkSys {
 	}
 }
 
+
+// ------------------------------------------------------------------ Renko: every brick count of one step
+
+/// One fresh instance per (brick size, direction, k): a single price k and a half bricks beyond the
+/// edge of the initial block. The step's direction must read the same from `sign`, `is_rising`,
+/// `is_falling` and from every brick, whatever the number of bricks is (counts 1..=1100 cover every
+/// residue of a narrow counter).
+#[derive(Clone)]
+struct RjState {
+	imp: Renko,
+	size: V,
+	k: usize,
+	up: bool,
+	/// reads prices through a user-defined candle type whose `source()` is its own
+	adjusted: bool,
+}
+struct RjSys {
+	adjusted: bool,
+}
+static LENS_SEEN: std::sync::Mutex<Vec<bool>> = std::sync::Mutex::new(Vec::new());
+
+/// A user-defined OHLCV type with its own `source()`: every price is reported split-adjusted (halved)
+/// through `source`, while the plain accessors keep the unadjusted quotes.
+#[derive(Clone, Copy, Debug)]
+struct Adjusted(Candle);
+impl OHLCV for Adjusted {
+	fn open(&self) -> V {
+		self.0.open
+	}
+	fn high(&self) -> V {
+		self.0.high
+	}
+	fn low(&self) -> V {
+		self.0.low
+	}
+	fn close(&self) -> V {
+		self.0.close
+	}
+	fn volume(&self) -> V {
+		self.0.volume
+	}
+	fn source(&self, source: Source) -> V {
+		self.0.source(source) * 0.5
+	}
+}
+
+impl System for RjSys {
+	type State = RjState;
+	type Act = ();
+	fn name(&self) -> String {
+		if self.adjusted { "Renko/user-candle-with-own-source/brick-counts".into() } else { "Renko/brick-counts-of-one-step".into() }
+	}
+	fn inits(&self) -> Vec<(RjState, String)> {
+		let mut v = vec![];
+		let srcs: &[Source] = if self.adjusted { &[Source::Close, Source::Open, Source::HL2, Source::TP] } else { &[Source::Close] };
+		for &src in srcs {
+			for (size, up) in [(1.0 / 128.0, true), (1.0 / 2048.0, true), (1.0 / 2048.0, false)] {
+				for k in 1..=if self.adjusted { 40 } else { 1100usize } {
+					let imp = if self.adjusted { Renko::new((size, src), &Adjusted(price_candle(2.0, 1.0))) } else { Renko::new((size, src), &price_candle(1.0, 1.0)) };
+					if let Ok(imp) = imp {
+						v.push((RjState { imp, size, k, up, adjusted: self.adjusted }, format!("Renko(({size:?},{src:?})) from 1.0, {k}.5 bricks {}", if up { "up" } else { "down" })));
+					}
+				}
+			}
+		}
+		v
+	}
+	fn actions(&self, _: &RjState, depth: u32) -> Vec<((), u8)> {
+		if depth == 0 { vec![((), 0)] } else { vec![] }
+	}
+	fn show_act(&self, _: &()) -> String {
+		"jump".into()
+	}
+	fn step(&self, s: &RjState, _: &()) -> Step<RjState> {
+		let mut n = s.clone();
+		let (lu, ll, _, _) = thresholds(&s.imp);
+		let b = s.size as f64;
+		// the initial block is centred on the (adjusted) construction price 1.0
+		let t = 8.0 * eps();
+		if (lu - (1.0 + b / 2.0)).abs() > t || (ll - (1.0 - b / 2.0)).abs() > t {
+			return Step::Violation(Failure::new("Renko/state/initial-block", format!("constructed from the price 1.0 with brick size {b:?}: initial block ({ll:?}, {lu:?})")));
+		}
+		let price = if s.up { lu * (1.0 + (s.k as f64 + 0.5) * b) } else { ll * (1.0 - (s.k as f64 + 0.5) * b) };
+		let out = if s.adjusted { catch(|| n.imp.next(&Adjusted(price_candle((price * 2.0) as V, 1.0)))) } else { catch(|| n.imp.next(&price_candle(price as V, 1.0))) };
+		let out = match out {
+			Ok(o) => o,
+			Err(p) => return Step::Violation(Failure::new("Renko/next/panic/brick-counts", format!("{}: {}", p.at(), p.msg))),
+		};
+		let len = out.len();
+		if len + 1 < s.k || len > s.k + 1 {
+			return Step::Violation(Failure::new("Renko/output/brick-count", format!("price {price:?} is {}.5 bricks beyond the block ({ll:?}, {lu:?}): {len} bricks emitted", s.k)));
+		}
+		{
+			let mut g = LENS_SEEN.lock().unwrap();
+			if g.len() <= len {
+				g.resize(len + 1, false);
+			}
+			g[len] = true;
+		}
+		let dir: i8 = if s.up { 1 } else { -1 };
+		if out.sign() != dir || out.is_rising() != s.up || out.is_falling() == s.up {
+			return Step::Violation(Failure::new("Renko/output/direction-of-the-step", format!("{len} bricks {}: sign() = {}, is_rising() = {}, is_falling() = {}", if s.up { "up" } else { "down" }, out.sign(), out.is_rising(), out.is_falling())));
+		}
+		let mut count = 0usize;
+		for (i, br) in out.clone().enumerate() {
+			count += 1;
+			if br.sign() != dir || (br.close > br.open) != s.up {
+				return Step::Violation(Failure::new("Renko/output/brick-sign", format!("brick {i} of {len}: {:?} -> {:?}, sign {}", br.open, br.close, br.sign())));
+			}
+		}
+		if count != len {
+			return Step::Violation(Failure::new("Renko/output/iterator-protocol", format!("len() = {len}, {count} bricks iterated")));
+		}
+		Step::Next(n)
+	}
+}
+
 // ------------------------------------------------------------------ HeikinAshi validity
 
 #[derive(Clone)]
@@ -453,5 +570,13 @@ fn main() {
 	h.go(&HaSys { alphabet: { let mut a = k.clone(); a.push(cd(10.1, 10.7, 9.3, 10.3, 1.7)); a.push(cd(1e-3, 1e3, 1e-3, 1e3, 1.0)); a } }, &Limits::depth(if thorough { 6 } else { 5 }), true);
 	let sizes: Vec<V> = if IS_F32 { vec![0.0078125, 0.01, 0.1, 0.5] } else { vec![0.0078125, 0.01, 0.1, 0.5] };
 	h.go(&RkSys { sizes, srcs: vec![Source::Close, Source::TP, Source::HL2], v0s: vec![100.0, 1.0, 123.456] }, &Limits::depth(if thorough { 5 } else { 4 }).wall_secs(600), true);
+	h.go(&RjSys { adjusted: false }, &Limits::depth(1), false);
+	h.go(&RjSys { adjusted: true }, &Limits::depth(1), false);
+	if !h.is_replay() {
+		let g = LENS_SEEN.lock().unwrap();
+		if let Some(k) = (1..=1024).find(|&k| !g.get(k).copied().unwrap_or(false)) {
+			h.run.machinery_error(format!("Renko/brick-counts-of-one-step: no step with exactly {k} bricks was produced"));
+		}
+	}
 	h.finish();
 }
